@@ -1,13 +1,13 @@
 SPECIFICATION Spec
 CONSTANTS
   Indexes = {1}
-  Ids = {1, 2, 3}
-  Toks = {"a", "b"}
+  Ids = {1, 2, 3, 4}
+  Toks = {"a"}
   Metrics = {"f"}
   Dim = 2
-  Caps = {1}
+  Caps = {2}
   Reqs = {1}
-  MaxBuilds = 2
+  MaxBuilds = 1
   MaxTrivial = 1
   MinBatch = 2
   AsCodedInsert = FALSE
@@ -30,5 +30,6 @@ INVARIANTS
   NoInternalError
   IdsBounded
 PROPERTIES
+  BuildEnds
   OthersUntouched
 CHECK_DEADLOCK FALSE
